@@ -79,11 +79,15 @@ FaultCases ==
     ops |-> IF n \in {"about"} /\ k # "garbage" /\ k # "symlink-dangling" THEN HomeOp([kind |-> "out", out |-> GoodOut]) ELSE <<>>,
     tags |-> <<"c18faults", k, n>>] : n \in DOMAIN GoodFiles, k \in FaultKinds}
 \* truncation of each file at every chunk boundary: a clean load or an error that identifies the file; never a crash
+\* prefixes (numbers of chunks) at which a file is a complete template again; at every other length it ends inside {{ }},
+\* inside directive arguments or inside an open block, and by C08 / C18 loading must fail naming the file
+ClosedAt(n) == CASE n = "home" -> {0, 3, 4, 9, 31} [] n = "layouts/main" -> {0, 1, 4, 5, 12, 13}
+                 [] n = "components/card" -> {0, 1, 4, 5, 14, 15} [] n = "about" -> {0, 1, 6, 19}
 TruncCases ==
   UNION {{[files |-> SetToSeq(Others(n) \cup {FileRec(n, Cat(SubSeq(GoodFiles[n], 1, k)), "")}),
            cfg |-> [dir |-> "t", ext |-> ".tw"],
-           load |-> [any |-> TRUE, mentions |-> SetToSeq(Refs(n))],
-           ops |-> <<>>, tags |-> <<"c18trunc", n>>] : k \in 0..Len(GoodFiles[n])} : n \in DOMAIN GoodFiles}
+           load |-> IF k \in ClosedAt(n) THEN [any |-> TRUE, mentions |-> SetToSeq(Refs(n))] ELSE [ok |-> FALSE, mentions |-> SetToSeq(Refs(n))],
+           ops |-> <<>>, tags |-> <<"c18trunc", n, IF k \in ClosedAt(n) THEN "complete" ELSE "cut-open">>] : k \in 0..Len(GoodFiles[n])} : n \in DOMAIN GoodFiles}
 BaseCase == {[files |-> SetToSeq({FileRec(m, Cat(GoodFiles[m]), "") : m \in DOMAIN GoodFiles}), cfg |-> [dir |-> "t", ext |-> ".tw"],
               load |-> [ok |-> TRUE, names |-> SetToSeq(GoodNames)],
               ops |-> HomeOp([kind |-> "out", out |-> GoodOut]) \o
